@@ -58,11 +58,12 @@ type profileCfg struct {
 	maxComps   int     // 256, or 64 for the tiny build
 	fullReg    bool    // fill the registry up to the maximum
 	allComps   bool    // register all static component types
+	misuse     float64 // probability of one misuse call (Next/Get/Close) after a query's end
 }
 
 func profileOf(name string) profileCfg {
 	c := profileCfg{mult: map[string]float64{}, stale: 0.04, maxObs: 3, minFilters: 2, maxOpen: 3,
-		noVals: 0.1, typedBias: 0.3, maxComps: 256}
+		noVals: 0.1, typedBias: 0.3, maxComps: 256, misuse: 0.15}
 	m := c.mult
 	switch name {
 	case "noobs":
@@ -117,6 +118,8 @@ func profileOf(name string) profileCfg {
 		m["stats"], m["shrink"], m["freg"], m["obs"] = 12, 2, 2, 2
 	case "tiny":
 		c.maxComps = 64
+		c.misuse = 0.6 // the builds differ in their checks: misuse after a query's end is C20's subject
+		m["qopen"] = 3
 	}
 	return c
 }
@@ -1243,7 +1246,7 @@ func (g *Gen) opBatchTarget() bool {
 	return true
 }
 
-// opBigTable: a table beyond 64 rows (the threshold at which the code switches from row-wise
+// opBigTable: a table beyond 64 rows or well below (the threshold at which the code switches from row-wise
 // zeroing to bulk clearing), emptied by Reset / batch removal / batch exchange, then refilled
 // with components added WITHOUT initial values, which must read zero.
 func (g *Gen) opBigTable() bool {
@@ -1268,6 +1271,9 @@ func (g *Gen) opBigTable() bool {
 		p = "m"
 	}
 	cnt := 65 + g.pick(40)
+	if g.chance(0.4) {
+		cnt = 2 + g.pick(30) // the row-wise zeroing path (up to 64 rows)
+	}
 	l := g.nextEnt
 	g.nextEnt += cnt
 	for i := 0; i < cnt; i++ {
@@ -1457,7 +1463,7 @@ func (g *Gen) opQStep() bool {
 	case 2, 3:
 		g.emit(fmt.Sprintf("qclose q%d", q))
 		g.openQueries = append(g.openQueries[:i], g.openQueries[i+1:]...)
-		if g.chance(0.1) {
+		if g.chance(g.cfg.misuse * 0.7) {
 			g.emit(fmt.Sprintf("%s q%d", []string{"qnext", "qget", "qclose"}[g.pick(3)], q))
 		}
 	case 4:
@@ -1477,7 +1483,7 @@ func (g *Gen) opQStep() bool {
 		// one further misuse call (Next/Get/Close after exhaustion)
 		if !g.queryActive(q) {
 			g.openQueries = append(g.openQueries[:i], g.openQueries[i+1:]...)
-			if g.chance(0.15) {
+			if g.chance(g.cfg.misuse) {
 				g.emit(fmt.Sprintf("%s q%d", []string{"qnext", "qget", "qclose"}[g.pick(3)], q))
 			}
 		}
@@ -1684,6 +1690,28 @@ func (g *Gen) opDumpLoad() bool {
 					g.nextEnt++
 					g.ents = append(g.ents, l)
 					g.emit(fmt.Sprintf("new0 e%d", l))
+				}
+				// the SAME dump value loaded a second time, after the world that loaded it first went on:
+				// the dump must not have been changed through the first world
+				if g.chance(0.5) {
+					if len(saved) > 0 {
+						g.emit(fmt.Sprintf("del e%d", saved[g.pick(len(saved))]))
+					}
+					g.emit("reset")
+					g.ents = nil
+					g.emit(fmt.Sprintf("load d%d", old))
+					if g.h.lastOK {
+						g.ents = append([]int(nil), saved...)
+						for i := 0; i < 4 && len(saved) > 0; i++ {
+							g.emit(fmt.Sprintf("alive e%d", saved[g.pick(len(saved))]))
+						}
+						for i := 0; i < 3; i++ {
+							l := g.nextEnt
+							g.nextEnt++
+							g.ents = append(g.ents, l)
+							g.emit(fmt.Sprintf("new0 e%d", l))
+						}
+					}
 				}
 			}
 			return true
